@@ -28,6 +28,8 @@ type Stats struct {
 	States                       int // time-travel child states compared
 	Times                        int // time-travel instants
 	ErrorsJustified              int
+	ReverseChecked, ReverseTrue  int // Update.Reverse of way members compared with the reference / expected true
+	OrientationStates            int // Member.Orientation after ApplyUpdatesUpTo compared
 	Untouched                    int
 }
 
@@ -443,6 +445,20 @@ func (c *checker) checkAnnotations() {
 					c.add("update-fields", c.mode(x), "parent version %d index %d: update %+v does not carry the data / effective time (%d) of version %d", p.Version, j, u, v.Sec, v.Version)
 					continue
 				}
+				if exp, ok := c.m.ExpectedReverse(x, k); ok {
+					c.st.ReverseChecked++
+					if exp {
+						c.st.ReverseTrue++
+					}
+					if u.Reverse != exp {
+						shape := "open-way"
+						if ch.Closed {
+							shape = "closed-way"
+						}
+						c.add("update-reverse", shape, "parent version %d index %d (%v): update to version %d has Reverse=%v, but the way is %s with respect to its previous version %d (closed=%v, rev %v->%v, alt %d->%d)",
+							p.Version, j, ch.FID(), v.Version, u.Reverse, map[bool]string{true: "reversed", false: "not reversed"}[exp], vs[k-1].Version, ch.Closed, vs[k-1].Rev, v.Rev, vs[k-1].Alt, v.Alt)
+					}
+				}
 				if seen[k] {
 					c.add("update-duplicate", c.mode(x), "parent version %d index %d: version %d listed twice", p.Version, j, v.Version)
 					continue
@@ -606,6 +622,7 @@ func (c *checker) timeTravel(r *gen.R) {
 		for _, t := range ts {
 			c.st.Times++
 			var after []obsRef
+			var afterOri []int
 			var err error
 			if h.Way {
 				w := eq.Clone(c.run.Ways[i])
@@ -615,6 +632,9 @@ func (c *checker) timeTravel(r *gen.R) {
 				rl := eq.Clone(c.run.Relations[i])
 				err = rl.ApplyUpdatesUpTo(c.h.At(t))
 				after = obsOfRel(rl)
+				for _, mb := range rl.Members {
+					afterOri = append(afterOri, int(mb.Orientation))
+				}
 			}
 			if err != nil {
 				c.add("timetravel", "apply-error", "parent version %d: ApplyUpdatesUpTo(%d) failed: %v", p.Version, t, err)
@@ -642,6 +662,22 @@ func (c *checker) timeTravel(r *gen.R) {
 					continue
 				}
 				c.st.States++
+				if afterOri != nil && h.Children[x].Type == osm.TypeWay {
+					// the orientation follows every direction change between the base and the version in effect
+					exp := int(c.run.Relations[i].Members[j].Orientation)
+					for k := b + 1; k <= want; k++ {
+						if rv, _ := c.m.ExpectedReverse(x, k); rv {
+							exp = -exp
+						}
+					}
+					c.st.OrientationStates++
+					if afterOri[j] != exp {
+						c.add("timetravel-orientation", c.spot(i, x, len(ups)), "parent version %d, updates applied up to t=%d: member %d (%v) has orientation %d, expected %d (annotated %d, base v%d, version in effect v%d)",
+							p.Version, t, j, h.Children[x].FID(), afterOri[j], exp, c.run.Relations[i].Members[j].Orientation, vs[b].Version, vs[want].Version)
+						bad = true
+						break
+					}
+				}
 				if !matches(&h.Children[x], vs[want], after[j]) {
 					c.add("timetravel", c.spot(i, x, len(ups)), "parent version %d (t=%d), updates applied up to t=%d: index %d (%v) is at version %d, the version in effect is %d (base v%d)", p.Version, p.Sec, t, j, h.Children[x].FID(), after[j].Version, vs[want].Version, vs[b].Version)
 					bad = true
